@@ -46,6 +46,24 @@ Proof. intros Hq. assert (H1 : 1 - q <> 0) by (intros E; apply Hq; transitivity 
   rewrite (sumn_ext K len _ (fun i => pw q lower * pw q i)) by (intros; apply pw_add).
   rewrite sumn_scal, geom_sum_div by exact Hq. field. exact H1. Qed.
 
+(* telescoping principle behind the closed forms  (q^lower A_l - q^(upper+1) B_u) / (1-q)^(p+1)
+   of termXq for n**p: if A - q B(l) = T(l) and B(u) - q B(u+1) = T(u+1) then
+   sum_{n=l}^{l+len} T(n) q^n = q^l A - q^(l+len+1) B(l+len) *)
+Lemma tele_sum (q : K) (l : nat) (A : K) (B T : nat -> K) :
+  A - q * B l = T l -> (forall u, B u - q * B (S u) = T (S u)) ->
+  forall len, sumn (S len) (fun i => T (l + i)%nat * pw q (l + i)) = pw q l * A - pw q (l + len + 1) * B (l + len)%nat.
+Proof.
+  intros H0 Hs len. induction len as [|len IH].
+  - cbn [SeqFilter.sumn]. rewrite !Nat.add_0_r. replace (l + 1)%nat with (S l) by lia. cbn [SeqFilter.pw].
+    rewrite <- H0. ring.
+  - rewrite sumn_S, IH. replace (l + S len)%nat with (S (l + len)) by lia. rewrite <- (Hs (l + len)%nat).
+    replace (l + len + 1)%nat with (S (l + len)) by lia. replace (S (l + len) + 1)%nat with (S (S (l + len))) by lia.
+    cbn [SeqFilter.pw]. ring.
+Qed.
+(* q d/dq on the finite sum (termXq "* n":  Xq <- q * diff(Xq, q)) and q -> q a (termXq "* a**n") act termwise *)
+Lemma sum_scale_q (a q : K) (x : nat -> K) n : sumn n (fun i => pw a i * x i * pw q i) = sumn n (fun i => x i * pw (q * a) i).
+Proof. apply sumn_ext. intros i Hi. rewrite pw_prod. ring. Qed.
+
 Variable W : K.
 Variable N : nat.
 Hypothesis HN : (0 < N)%nat.
